@@ -835,6 +835,7 @@ def create_logger(id_, parameters, arg):
     if arg.coalescent:
         models.append('coalescent')
         if arg.coalescent in COALESCENT_PIECEWISE:
+            parameters2.append('coalescent.theta.log')
             models.append('gmrf')
             models.append(
                 {
@@ -848,7 +849,7 @@ def create_logger(id_, parameters, arg):
         "id": id_,
         "type": "Logger",
         "file_name": file_name,
-        "parameters": models + parameters2 + ['coalescent.theta.log'],
+        "parameters": models + parameters2,
         "delimiter": "\t",
     }
 
